@@ -443,3 +443,581 @@ Proof.
                  OMain (OSet 0 (zeros [3]) None false true)].
   split; [repeat constructor|]. vm_compute. split; reflexivity.
 Qed.
+
+(* ================================================================== the full invariant *)
+(* ---- views in normal orientation *)
+Lemma ori_invol {A} app (l : list A) : ori app (ori app l) = l.
+Proof. destruct app; simpl; auto using rev_involutive. Qed.
+Lemma length_ori {A} app (l : list A) : length (ori app l) = length l.
+Proof. destruct app; simpl; auto using rev_length. Qed.
+Lemma in_ori {A} app (l : list A) x : In x (ori app l) -> In x l.
+Proof. destruct app; simpl; auto. intros H. now apply in_rev. Qed.
+
+Lemma vw_ori_tab app n f i : vw app (ori app (tab n f)) i = if i <? n then f i else 1.
+Proof.
+  unfold vw. rewrite ori_invol. destruct (Nat.ltb_spec i n).
+  - now apply nth_tab.
+  - apply nth_overflow. now rewrite length_tab.
+Qed.
+Lemma vw_fit app n s i : vw app (fit app n s) i = if i <? n then vw app s i else 1.
+Proof. apply vw_ori_tab. Qed.
+Lemma length_fit app n s : length (fit app n s) = n.
+Proof. unfold fit. rewrite length_ori. apply length_tab. Qed.
+Lemma vw_out app s i : length s <= i -> vw app s i = 1.
+Proof. intros. unfold vw. apply nth_overflow. now rewrite length_ori. Qed.
+
+Definition pos_shape (s : list nat) : Prop := forall x, In x s -> 1 <= x.
+Lemma vw_pos app s i : pos_shape s -> 1 <= vw app s i.
+Proof.
+  intros H. unfold vw. destruct (Nat.lt_ge_cases i (length (ori app s))).
+  - apply H. apply (in_ori app). now apply nth_In.
+  - now rewrite nth_overflow.
+Qed.
+
+(* ---- maxima *)
+Lemma lmax_ge l x : In x l -> x <= list_max l.
+Proof. induction l; simpl; [intros []|]. intros [->|H]; [lia|]. specialize (IHl H). lia. Qed.
+Lemma lmax_in l : l <> [] -> In (list_max l) l.
+Proof.
+  induction l as [|a l IH]; [congruence|]. intros _. simpl.
+  destruct l as [|b l]; [left; simpl; lia|].
+  destruct (Nat.max_spec a (list_max (b :: l))) as [[_ ->]|[_ ->]]; [right; apply IH; discriminate|now left].
+Qed.
+Lemma lmax_coh l t :
+  l <> [] -> (forall x, In x l -> 1 <= x) -> (forall x, In x l -> x = 1 \/ x = t) ->
+  forall x, In x l -> x = 1 \/ x = list_max l.
+Proof.
+  intros Hne Hpos Hc x Hx. pose proof (lmax_in l Hne) as Hm. pose proof (lmax_ge l x Hx).
+  destruct (Hc x Hx) as [?|?]; auto. destruct (Hc _ Hm) as [E|E].
+  - left. specialize (Hpos x Hx). lia.
+  - right. lia.
+Qed.
+
+Definition mx app (sl : list (list nat)) i := list_max (map (fun s => vw app s i) sl).
+Lemma vw_calc app sl i : sl <> [] -> vw app (calc_shape app sl) i = mx app sl i.
+Proof.
+  intros Hne. unfold calc_shape. rewrite vw_ori_tab. fold (mx app sl i).
+  destruct (Nat.ltb_spec i (list_max (map (@length nat) sl))); [reflexivity|].
+  unfold mx. symmetry.
+  assert (Hn : map (fun s => vw app s i) sl <> []) by (destruct sl; [congruence|discriminate]).
+  pose proof (lmax_in _ Hn) as Hin. apply in_map_iff in Hin. destruct Hin as [s [Hs Hin]].
+  rewrite <- Hs. apply vw_out.
+  assert (length s <= list_max (map (@length nat) sl)) by (apply lmax_ge; now apply in_map).
+  lia.
+Qed.
+
+Definition compat app (s S : list nat) : Prop := forall i, vw app s i = 1 \/ vw app s i = vw app S i.
+Definition coh app (sl : list (list nat)) : Prop :=
+  forall i, exists t, forall s, In s sl -> vw app s i = 1 \/ vw app s i = t.
+
+Lemma compat_calc app sl :
+  sl <> [] -> (forall s, In s sl -> pos_shape s) -> coh app sl ->
+  forall s, In s sl -> compat app s (calc_shape app sl).
+Proof.
+  intros Hne Hpos Hc s Hs i. rewrite vw_calc by assumption. unfold mx. destruct (Hc i) as [t Ht].
+  apply (lmax_coh _ t).
+  - destruct sl; [congruence|discriminate].
+  - intros x Hx. apply in_map_iff in Hx. destruct Hx as [s' [<- Hs']]. apply vw_pos; auto.
+  - intros x Hx. apply in_map_iff in Hx. destruct Hx as [s' [<- Hs']]. auto.
+  - apply (in_map (fun s => vw app s i)). exact Hs.
+Qed.
+
+(* every stored broadcast part (and the default) is positive and broadcast-compatible with the
+   cached common shape *)
+Definition Compat (c : coll) : Prop :=
+  forall s, In s (shared_list (c_arrays c) (c_default c)) ->
+            pos_shape s /\ compat (c_app c) s (c_shape c).
+Definition Inv (c : coll) : Prop := CacheInv c /\ Compat c.
+
+Lemma shared_list_ne arrs dflt : shared_list arrs dflt <> [].
+Proof. unfold shared_list. intros H. apply app_eq_nil in H. destruct H. discriminate. Qed.
+
+Lemma compat_with_arrays c arrs dflt axes :
+  (forall s, In s (shared_list arrs dflt) -> pos_shape s) -> coh (c_app c) (shared_list arrs dflt) ->
+  Compat (with_arrays c arrs dflt axes).
+Proof.
+  intros Hpos Hc s Hs. unfold with_arrays in *. simpl in *. split; [auto|].
+  apply compat_calc; auto using shared_list_ne.
+Qed.
+
+Lemma coh_add app sl S snew sl' :
+  (forall s, In s sl -> compat app s S) ->
+  (forall i, dim_ok (vw app snew i) (vw app S i) = true) ->
+  (forall s, In s sl' -> s = snew \/ In s sl) -> coh app sl'.
+Proof.
+  intros Hc Hd Hsub i. specialize (Hd i). unfold dim_ok in Hd.
+  rewrite !orb_true_iff, !Nat.eqb_eq in Hd.
+  destruct (Nat.eq_dec (vw app S i) 1) as [E|NE].
+  - exists (vw app snew i). intros s Hs. destruct (Hsub s Hs) as [->|Hin]; auto.
+    destruct (Hc s Hin i) as [?|?]; auto. left; congruence.
+  - exists (vw app S i). intros s Hs. destruct (Hsub s Hs) as [->|Hin]; [|apply Hc; auto].
+    destruct Hd as [[?|?]|?]; auto. contradiction.
+Qed.
+
+(* ---- forallb2 through indices and orientation *)
+Lemma forallb2_app {A B} (f : A -> B -> bool) a1 a2 b1 b2 :
+  length a1 = length a2 ->
+  forallb2 f (a1 ++ b1) (a2 ++ b2) = forallb2 f a1 a2 && forallb2 f b1 b2.
+Proof.
+  revert a2. induction a1 as [|x a1 IH]; intros [|y a2] H; simpl in *; try discriminate; auto.
+  rewrite IH by lia. now rewrite andb_assoc.
+Qed.
+Lemma forallb2_length {A B} (f : A -> B -> bool) l1 l2 : forallb2 f l1 l2 = true -> length l1 = length l2.
+Proof.
+  revert l2. induction l1 as [|x l1 IH]; intros [|y l2] H; simpl in *; try discriminate; auto.
+  apply andb_true_iff in H. destruct H. f_equal. auto.
+Qed.
+Lemma forallb2_rev {A B} (f : A -> B -> bool) l1 l2 :
+  forallb2 f l1 l2 = true -> forallb2 f (rev l1) (rev l2) = true.
+Proof.
+  revert l2. induction l1 as [|x l1 IH]; intros [|y l2] H; simpl in *; try discriminate; auto.
+  apply andb_true_iff in H. destruct H as [H1 H2].
+  rewrite forallb2_app by (rewrite !rev_length; now apply forallb2_length in H2).
+  rewrite IH by assumption. simpl. now rewrite H1.
+Qed.
+Lemma forallb2_ori {A B} (f : A -> B -> bool) app l1 l2 :
+  forallb2 f l1 l2 = true -> forallb2 f (ori app l1) (ori app l2) = true.
+Proof. destruct app; simpl; auto using forallb2_rev. Qed.
+Lemma forallb2_nth {A B} (f : A -> B -> bool) l1 l2 da db :
+  forallb2 f l1 l2 = true -> forall i, i < length l1 -> f (nth i l1 da) (nth i l2 db) = true.
+Proof.
+  revert l2. induction l1 as [|x l1 IH]; intros [|y l2] H i Hi; simpl in *; try discriminate; try lia.
+  apply andb_true_iff in H. destruct H. destruct i; auto. apply IH; auto. lia.
+Qed.
+Lemma forallb2_of_nth {A B} (f : A -> B -> bool) l1 l2 da db :
+  length l1 = length l2 -> (forall i, i < length l1 -> f (nth i l1 da) (nth i l2 db) = true) ->
+  forallb2 f l1 l2 = true.
+Proof.
+  revert l2. induction l1 as [|x l1 IH]; intros [|y l2] Hl H; simpl in *; try discriminate; auto.
+  rewrite (H 0) by lia. simpl. apply IH; [lia|]. intros i Hi. apply (H (S i)). lia.
+Qed.
+
+(* the shape test of check_shape, read in normal orientation *)
+Lemma check_dims app s S :
+  forallb2 dim_ok (fit app (length S) s) S = true ->
+  forall i, dim_ok (vw app s i) (vw app S i) = true.
+Proof.
+  intros H i. destruct (Nat.lt_ge_cases i (length S)) as [Hi|Hi].
+  - apply (forallb2_ori _ app) in H.
+    pose proof (forallb2_nth _ _ _ 1 1 H i) as Hn.
+    rewrite length_ori, length_fit in Hn. specialize (Hn Hi).
+    change (dim_ok (vw app (fit app (length S) s) i) (vw app S i) = true) in Hn.
+    rewrite vw_fit in Hn. destruct (Nat.ltb_spec i (length S)); [exact Hn|lia].
+  - rewrite (vw_out app S i Hi). unfold dim_ok. rewrite Nat.eqb_refl. apply orb_true_r.
+Qed.
+
+Lemma in_firstn' {A} n (l : list A) x : In x (firstn n l) -> In x l.
+Proof.
+  revert l. induction n; intros l; simpl; [intros []|]. destruct l; simpl; [intros []|].
+  intros [->|H]; auto.
+Qed.
+Lemma in_skipn' {A} n (l : list A) x : In x (skipn n l) -> In x l.
+Proof. revert l. induction n; intros l; simpl; auto. destruct l; simpl; auto. Qed.
+
+Lemma in_shared_list arrs dflt s :
+  In s (shared_list arrs dflt) -> s = dflt \/ exists nm e, In (nm, e) arrs /\ s = entry_shared e.
+Proof.
+  unfold shared_list. intros H. apply in_app_or in H. destruct H as [H|[<-|[]]]; auto.
+  apply in_map_iff in H. destruct H as [[nm e] [<- Hin]]. right. exists nm, e. auto.
+Qed.
+Lemma shared_list_in_arr arrs dflt nm e : In (nm, e) arrs -> In (entry_shared e) (shared_list arrs dflt).
+Proof.
+  intros H. unfold shared_list. apply in_or_app. left.
+  apply (in_map (fun p => entry_shared (snd p))) in H. exact H.
+Qed.
+Lemma shared_list_in_dflt arrs dflt : In dflt (shared_list arrs dflt).
+Proof. unfold shared_list. apply in_or_app. right. now left. Qed.
+
+Lemma compat_of_Compat c : Compat c ->
+  forall s, In s (shared_list (c_arrays c) (c_default c)) -> compat (c_app c) s (c_shape c).
+Proof. intros H s Hs. apply H. exact Hs. Qed.
+
+(* ---- set with the shape check on *)
+Lemma inv_set c name a lay rsz c' :
+  (forall l, lay = Some l -> lay_first l) -> pos_shape (shp a) ->
+  Inv c -> set c name a lay rsz true = Ok c' -> Inv c'.
+Proof.
+  intros Hlay Hpos [HC HK] Hs. split; [eapply cache_set; eauto|].
+  destruct HC as [_ [_ Hwf]]. unfold set in Hs.
+  set (l := match lay with Some l => l | None =>
+             match lookup name (c_arrays c) with Some e => e_lay e | None => [LEll] end end) in *.
+  assert (Hl : lay_first l).
+  { unfold l. destruct lay; [now apply Hlay|].
+    destruct (lookup name (c_arrays c)) eqn:E.
+    - apply lookup_in in E. destruct (Hwf _ _ E) as [rest [H1 [H2 _]]]. exists rest. auto.
+    - exists []. auto. }
+  destruct Hl as [rest [Hl Hc]]. rewrite Hl in *.
+  destruct (negb (count_ell (LEll :: rest) =? 1)); [discriminate|].
+  destruct (Nat.ltb_spec (length (shp a) + 1) (length (LEll :: rest))) as [|Hrank]; [discriminate|].
+  simpl in Hrank.
+  set (a1 := if rsz then resize_named (gna (c_arrays c) (Some name)) a (LEll :: rest) else a) in *.
+  set (snew := firstn (length (shp a) - length rest) (shp a)).
+  assert (Ha1 : length (shp a1) = length (shp a) /\
+                firstn (length (shp a) - length rest) (shp a1) = snew).
+  { unfold a1. destruct rsz; [|auto]. apply resize_named_rank. lia. }
+  destruct Ha1 as [Hr1 Hf1].
+  simpl in Hs. destruct (check_shape c (shp a1) (LEll :: rest) (Some name)) eqn:Hchk; [|discriminate].
+  simpl in Hs. inversion Hs; subst c'; clear Hs.
+  unfold check_shape in Hchk. apply andb_true_iff in Hchk. destruct Hchk as [_ Hcc].
+  unfold check_common, slice in Hcc. simpl in Hcc.
+  replace (length (shp a1) + 1 - S (length rest) - 0) with (length (shp a) - length rest) in Hcc by lia.
+  rewrite Hf1 in Hcc.
+  assert (Hnew : entry_shared (mkE (LEll :: rest) a1) = snew).
+  { unfold entry_shared. simpl e_lay. simpl e_arr. rewrite shared_axes_first, Hr1. exact Hf1. }
+  assert (Hsub : forall s, In s (shared_list (set_assoc name (mkE (LEll :: rest) a1) (c_arrays c)) (c_default c)) ->
+                 s = snew \/ In s (shared_list (c_arrays c) (c_default c))).
+  { intros s Hin. apply in_shared_list in Hin. destruct Hin as [->|[nm [e [Hin ->]]]].
+    - right. apply shared_list_in_dflt.
+    - apply in_set_assoc in Hin. destruct Hin as [[_ ->]|Hin]; [left; exact Hnew|].
+      right. eapply shared_list_in_arr; eauto. }
+  apply compat_with_arrays.
+  - intros s Hin. destruct (Hsub s Hin) as [->|Hold]; [|apply HK; exact Hold].
+    intros x Hx. apply Hpos. eapply in_firstn'; eauto.
+  - eapply (coh_add _ _ (c_shape c) snew); [apply (compat_of_Compat c HK)| |exact Hsub].
+    apply check_dims. exact Hcc.
+Qed.
+
+Lemma inv_broadcast c sh c' : pos_shape sh -> Inv c -> broadcast c sh = Ok c' -> Inv c'.
+Proof.
+  intros Hpos [HC HK] Hb. unfold broadcast in Hb.
+  destruct (check_shape c sh [LEll] None) eqn:Hchk; inversion Hb; subst c'; clear Hb.
+  split; [now apply cache_same_arrays|].
+  unfold check_shape in Hchk. apply andb_true_iff in Hchk. destruct Hchk as [_ Hcc].
+  unfold check_common, slice in Hcc. simpl in Hcc.
+  replace (length sh + 1 - 1 - 0) with (length sh) in Hcc by lia. rewrite firstn_all in Hcc.
+  assert (Hsub : forall s, In s (shared_list (c_arrays c) sh) ->
+                 s = sh \/ In s (shared_list (c_arrays c) (c_default c))).
+  { intros s Hin. apply in_shared_list in Hin. destruct Hin as [->|[nm [e [Hin ->]]]]; [now left|].
+    right. eapply shared_list_in_arr; eauto. }
+  apply compat_with_arrays.
+  - intros s Hin. destruct (Hsub s Hin) as [->|Hold]; [exact Hpos|apply HK; exact Hold].
+  - eapply (coh_add _ _ (c_shape c) sh); [apply (compat_of_Compat c HK)| |exact Hsub].
+    apply check_dims. exact Hcc.
+Qed.
+
+(* ---- operations that replace the default by a part of the common shape *)
+Lemma coh_sub app sl S d sl' :
+  (forall s, In s sl -> compat app s S) -> compat app d S ->
+  (forall s, In s sl' -> s = d \/ In s sl) -> coh app sl'.
+Proof.
+  intros Hc Hd Hsub i. exists (vw app S i). intros s Hs.
+  destruct (Hsub s Hs) as [->|Hin]; [apply Hd|apply Hc; exact Hin].
+Qed.
+
+Lemma pos_calc app sl : sl <> [] -> (forall s, In s sl -> pos_shape s) -> pos_shape (calc_shape app sl).
+Proof.
+  intros Hne Hpos x Hx. unfold calc_shape in Hx. apply in_ori in Hx.
+  unfold tab in Hx. apply in_map_iff in Hx. destruct Hx as [i [<- _]].
+  assert (Hn : map (fun s => vw app s i) sl <> []) by (destruct sl; [congruence|discriminate]).
+  pose proof (lmax_in _ Hn) as Hin. apply in_map_iff in Hin. destruct Hin as [s [Hs Hin]].
+  rewrite <- Hs. apply vw_pos. auto.
+Qed.
+
+Lemma inv_new_default c d axes :
+  Inv c -> pos_shape d -> compat (c_app c) d (c_shape c) ->
+  Inv (with_arrays c (c_arrays c) d axes).
+Proof.
+  intros [HC HK] Hpos Hd. split; [now apply cache_same_arrays|].
+  assert (Hsub : forall s, In s (shared_list (c_arrays c) d) ->
+                 s = d \/ In s (shared_list (c_arrays c) (c_default c))).
+  { intros s Hin. apply in_shared_list in Hin. destruct Hin as [->|[nm [e [Hin ->]]]]; [now left|].
+    right. eapply shared_list_in_arr; eauto. }
+  apply compat_with_arrays.
+  - intros s Hin. destruct (Hsub s Hin) as [->|Hold]; [exact Hpos|apply HK; exact Hold].
+  - eapply (coh_sub _ _ (c_shape c) d); [apply (compat_of_Compat c HK)|exact Hd|exact Hsub].
+Qed.
+
+Lemma pos_shape_cached c : Inv c -> pos_shape (c_shape c).
+Proof.
+  intros [[H1 _] HK]. rewrite H1. apply pos_calc; [apply shared_list_ne|]. intros s Hs. apply HK. exact Hs.
+Qed.
+
+Lemma rev_repeat' {A} (x : A) n : rev (repeat x n) = repeat x n.
+Proof.
+  induction n; simpl; auto. rewrite IHn. clear. induction n; simpl; auto. now rewrite <- IHn.
+Qed.
+
+Lemma nth_app_ones l k i : nth i (l ++ repeat 1 k) 1 = nth i l 1.
+Proof.
+  destruct (Nat.lt_ge_cases i (length l)).
+  - now apply app_nth1.
+  - rewrite app_nth2 by assumption. rewrite (nth_overflow l) by assumption.
+    destruct (Nat.lt_ge_cases (i - length l) k); [now apply nth_repeat'|].
+    apply nth_overflow. now rewrite repeat_length.
+Qed.
+
+Lemma inv_expand c k : Inv c -> Inv (expand c k).
+Proof.
+  intros HI. unfold expand. pose proof (pos_shape_cached c HI) as HS. apply inv_new_default; auto.
+  - intros x Hx. destruct (c_app c); apply in_app_or in Hx; destruct Hx as [Hx|Hx]; auto;
+      apply repeat_spec in Hx; lia.
+  - intros i. right. unfold vw. destruct (c_app c); simpl.
+    + apply nth_app_ones.
+    + rewrite rev_app_distr, rev_repeat'. apply nth_app_ones.
+Qed.
+
+Lemma nth_firstn_one l m i : nth i (firstn m l) 1 = 1 \/ nth i (firstn m l) 1 = nth i l 1.
+Proof.
+  destruct (Nat.lt_ge_cases i m); [right; now apply nth_firstn'|].
+  left. apply nth_overflow. pose proof (firstn_le_length m l). lia.
+Qed.
+
+Lemma inv_reduce c k : Inv c -> Inv (reduce c k).
+Proof.
+  intros HI. unfold reduce. pose proof (pos_shape_cached c HI) as HS. apply inv_new_default; auto.
+  - intros x Hx. destruct (c_app c); [apply in_firstn' in Hx|apply in_skipn' in Hx]; auto.
+  - intros i. unfold vw. destruct (c_app c); simpl.
+    + apply nth_firstn_one.
+    + assert (E : rev (skipn k (c_shape c)) = firstn (length (c_shape c) - k) (rev (c_shape c))).
+      { rewrite firstn_rev. f_equal.
+        destruct (Nat.le_gt_cases k (length (c_shape c))); [f_equal; lia|].
+        rewrite (skipn_all2 (n := k)) by lia.
+        replace (length (c_shape c) - (length (c_shape c) - k)) with (length (c_shape c)) by lia.
+        now rewrite skipn_all. }
+      rewrite E. apply nth_firstn_one.
+Qed.
+
+Lemma inv_pop c name : Inv c -> Inv (fst (pop c name)).
+Proof.
+  intros [HC HK]. split; [now apply cache_pop|].
+  unfold pop. destruct (lookup name (c_arrays c)); [|exact HK]. simpl.
+  assert (Hsub : forall s, In s (shared_list (del_assoc name (c_arrays c)) (c_default c)) ->
+                 In s (shared_list (c_arrays c) (c_default c))).
+  { intros s Hin. apply in_shared_list in Hin. destruct Hin as [->|[nm [e1 [Hin ->]]]].
+    - apply shared_list_in_dflt.
+    - apply in_del_assoc in Hin. eapply shared_list_in_arr; eauto. }
+  apply compat_with_arrays.
+  - intros s Hin. apply HK. auto.
+  - intros i. exists (vw (c_app c) (c_shape c) i). intros s Hs. apply HK. auto.
+Qed.
+
+Lemma inv_resize c ax size cst c' : Inv c -> resize c ax size cst = Ok c' -> Inv c'.
+Proof.
+  intros [HC HK] Hr. split; [eapply cache_resize; eauto|].
+  unfold resize in Hr. destruct (lookup ax (c_axes c)); [|discriminate].
+  destruct (_ =? 0)%Z; [inversion Hr; subst; exact HK|].
+  inversion Hr; subst c'; clear Hr. unfold Compat. simpl.
+  replace (shared_list _ (c_default c)) with (shared_list (c_arrays c) (c_default c)); [exact HK|].
+  unfold shared_list. f_equal. rewrite map_map. simpl.
+  apply map_ext_in. intros [k e] Hin. simpl. symmetry. apply resize_entry_shared.
+  destruct HC as [_ [_ Hwf]]. eauto.
+Qed.
+
+Lemma inv_update_inplace c name v rsz c' :
+  Inv c -> update c name v rsz = Ok (c', false) -> Inv c'.
+Proof.
+  intros [HC HK] Hu. split; [eapply cache_update; eauto|].
+  unfold update in Hu.
+  destruct (lookup name (c_arrays c)) as [e|]; [|discriminate].
+  destruct (shp (e_arr e)); [discriminate|].
+  destruct (assign_to v _) as [d|].
+  - inversion Hu; subst. unfold Compat. simpl. rewrite set_data_shared. exact HK.
+  - destruct (set c name v None rsz false); inversion Hu.
+Qed.
+
+Lemma inv_init app : Inv (init app).
+Proof.
+  split; [apply cache_init|]. apply compat_with_arrays.
+  - intros s [<-|[]] x [<-|[]]. lia.
+  - intros i. exists 1. intros s [<-|[]]. destruct i as [|[|i]]; destruct app; simpl; auto.
+Qed.
+
+(* ---- calls inside the property's precondition: explicit layouts ellipsis-first, no empty axes,
+   the shape check not disabled by the caller, and an update whose fallback insertion (which the
+   code performs with check=False) would have passed the check *)
+Definition bop_ok (c : coll) (o : bop) : Prop :=
+  match o with
+  | OSet _ a lay _ chk => (forall l, lay = Some l -> lay_first l) /\ pos_shape (shp a) /\ chk = true
+  | OUpdate name v rsz =>
+      pos_shape (shp v) /\
+      forall c1, update c name v rsz = Ok (c1, true) -> set c name v None rsz true = Ok c1
+  | OBroadcast sh => pos_shape sh
+  | _ => True
+  end.
+
+Lemma update_fallback c name v rsz c1 :
+  update c name v rsz = Ok (c1, true) -> set c name v None rsz false = Ok c1.
+Proof.
+  unfold update. destruct (lookup name (c_arrays c)); [|discriminate].
+  destruct (shp (e_arr e)); [discriminate|]. destruct (assign_to v _); [intros H; inversion H|].
+  destruct (set c name v None rsz false); intros H; inversion H; reflexivity.
+Qed.
+
+Lemma inv_bstep c o c' p r : bop_ok c o -> Inv c -> bstep c o = Ok (c', p, r) -> Inv c'.
+Proof.
+  intros Hok HI Hs. destruct o; simpl in Hs, Hok.
+  - destruct Hok as [Hl [Hp ->]].
+    destruct (set c name a lay rsz true) eqn:E; inversion Hs; subst. eapply inv_set; eauto.
+  - destruct Hok as [Hp Hf].
+    destruct (update c name a rsz) as [[c1 p1]|] eqn:E; inversion Hs; subst.
+    destruct p; [|eapply inv_update_inplace; eauto].
+    eapply (inv_set c name a None rsz); [discriminate|exact Hp|exact HI|apply Hf; reflexivity].
+  - destruct (get c name bcast); inversion Hs; subst. exact HI.
+  - pose proof (inv_pop c name HI) as H. destruct (pop c name). inversion Hs; subst. exact H.
+  - destruct (resize c ax size cst) eqn:E; inversion Hs; subst. eapply inv_resize; eauto.
+  - inversion Hs; subst. now apply inv_expand.
+  - inversion Hs; subst. now apply inv_reduce.
+  - destruct (broadcast c sh) eqn:E; inversion Hs; subst. eapply inv_broadcast; eauto.
+Qed.
+
+(* ---- all call histories *)
+Definition op_ok (s : state) (o : op) : Prop :=
+  match o with
+  | OMain b => bop_ok (main s) b
+  | OChild b => bop_first b
+  | _ => True
+  end.
+Fixpoint ok_run (s : state) (h : list op) : Prop :=
+  match h with [] => True | o :: h' => op_ok s o /\ ok_run (step_state s o) h' end.
+
+(* the collection satisfies the full invariant; its linked child the cache invariant only
+   (link_child_refuted: the child's default is overwritten without a check) *)
+Definition InvS (s : state) : Prop := Inv (main s) /\ forall ch, child s = Some ch -> CacheInv ch.
+
+Lemma inv_step s o : op_ok s o -> InvS s -> InvS (step_state s o).
+Proof.
+  intros Hok [Hm Hc]. unfold step_state.
+  destruct (step s o) as [[s' r]|] eqn:E; [|split; assumption].
+  destruct o; simpl in E, Hok.
+  - destruct (bstep (main s) o) as [[[c' p] r']|] eqn:Eb; inversion E; subst; clear E.
+    split; simpl.
+    + exact (inv_bstep _ _ _ _ _ Hok Hm Eb).
+    + intros ch Hch. destruct p; [|auto].
+      destruct (child s) as [ch0|]; simpl in Hch; inversion Hch; subst.
+      apply cache_follow. auto.
+  - destruct (child s) as [ch|] eqn:Ech; [|discriminate].
+    destruct (bstep ch o) as [[[c' p] r']|] eqn:Eb; inversion E; subst; clear E.
+    split; simpl; [assumption|]. intros ch' Hch'. inversion Hch'; subst.
+    exact (cache_bstep _ _ _ _ _ Hok (Hc _ eq_refl) Eb).
+  - inversion E; subst. split; simpl; [now rewrite copy_id|assumption].
+  - destruct (child s) eqn:Ech; inversion E; subst. split; simpl; [assumption|].
+    intros ch Hch. inversion Hch; subst. apply cache_follow, cache_init.
+Qed.
+
+Lemma inv_run s h : ok_run s h -> InvS s -> InvS (run s h).
+Proof.
+  unfold run. revert s. induction h as [|o h IH]; intros s Hok HI; simpl; [assumption|].
+  destruct Hok as [H1 H2]. apply IH; [assumption|]. now apply inv_step.
+Qed.
+
+Theorem inv_reachable app h : ok_run (start app) h -> InvS (run (start app) h).
+Proof.
+  intros H. apply inv_run; [assumption|]. split; [apply inv_init|]. simpl. discriminate.
+Qed.
+
+(* ---- what the invariant says about get *)
+Lemma list_eqb_eq l1 l2 : shape_eqb l1 l2 = true -> l1 = l2.
+Proof.
+  unfold shape_eqb. revert l2. induction l1 as [|x l1 IH]; intros [|y l2] H; simpl in *; try discriminate; auto.
+  apply andb_true_iff in H. destruct H as [H1 H2]. apply Nat.eqb_eq in H1. f_equal; auto.
+Qed.
+
+Lemma forallb2_refl {A} (f : A -> A -> bool) l : (forall x, f x x = true) -> forallb2 f l l = true.
+Proof. intros H. induction l; simpl; auto. now rewrite H. Qed.
+
+Lemma compat_bc app s S :
+  compat app s S -> bc_okb (fit app (length S) s) S = true.
+Proof.
+  intros Hc. unfold bc_okb.
+  assert (H : forallb2 bc_dim (ori app (ori app (fit app (length S) s))) (ori app (ori app S)) = true).
+  { apply forallb2_ori.
+    apply (forallb2_of_nth _ _ _ 1 1).
+    - now rewrite !length_ori, length_fit.
+    - intros i Hi. rewrite length_ori, length_fit in Hi.
+      change (bc_dim (vw app (fit app (length S) s) i) (vw app S i) = true).
+      rewrite vw_fit. destruct (Nat.ltb_spec i (length S)); [|lia].
+      unfold bc_dim. destruct (Hc i) as [-> | ->]; [apply orb_true_r|now rewrite Nat.eqb_refl]. }
+  now rewrite !ori_invol in H.
+Qed.
+
+(* every stored array is returned; its shape is the common shape in the broadcast axes followed
+   by the array's own sizes of the fixed / named / free axes *)
+Theorem inv_get c nm e :
+  Inv c -> lookup nm (c_arrays c) = Some e ->
+  exists r rest,
+    get c nm true = Ok (Some r) /\ e_lay e = LEll :: rest /\
+    shp r = c_shape c ++ skipn (length (shp (e_arr e)) - length rest) (shp (e_arr e)).
+Proof.
+  intros [[H1 [H2 H3]] HK] Hl.
+  destruct (H3 _ _ (lookup_in _ _ _ Hl)) as [rest [Hlay [Hc Hr]]].
+  specialize (H2 _ _ Hl). rewrite Hlay, bshape_first in H2.
+  set (sh := shp (e_arr e)) in *. set (S := c_shape c) in *.
+  set (post := skipn (length sh - length rest) sh) in *.
+  unfold get. rewrite Hl, H2. fold sh.
+  destruct (shape_eqb sh (S ++ post)) eqn:Eq.
+  - exists (e_arr e), rest. apply list_eqb_eq in Eq. auto.
+  - unfold expand_and_broadcast. rewrite Hlay. simpl ell_index. fold sh. fold S.
+    assert (Hn : length sh + 1 - length (LEll :: rest) = length sh - length rest) by (simpl; lia).
+    rewrite Hn. cbn [Nat.add]. rewrite !firstn_O. cbn [app].
+    unfold slice. rewrite Nat.sub_0_r. cbn [skipn]. fold post.
+    set (mid := firstn (length sh - length rest) sh).
+    assert (Hmid : In mid (shared_list (c_arrays c) (c_default c))).
+    { replace mid with (entry_shared e).
+      - eapply shared_list_in_arr. eapply lookup_in; eauto.
+      - unfold entry_shared. rewrite Hlay, shared_axes_first. reflexivity. }
+    destruct (HK _ Hmid) as [_ Hcm]. fold S in Hcm.
+    set (E := fit (c_app c) (length S) mid ++ post).
+    assert (HT : S ++ skipn (length S) E = S ++ post).
+    { unfold E. rewrite skipn_app, length_fit, Nat.sub_diag.
+      rewrite skipn_all2 by (rewrite length_fit; lia). reflexivity. }
+    rewrite HT. cbn [andb].
+    destruct (shape_eqb (S ++ post) E) eqn:ET.
+    + cbn [negb]. exists (mkNd E (dat (e_arr e))), rest. apply list_eqb_eq in ET. simpl. auto.
+    + cbn [negb]. unfold broadcast_to. cbn [shp dat].
+      assert (HL : length E = length (S ++ post)) by (unfold E; now rewrite !app_length, length_fit).
+      rewrite HL, Nat.sub_diag. cbn [repeat app].
+      rewrite Nat.leb_refl. cbn [andb].
+      assert (Hbc : bc_okb E (S ++ post) = true).
+      { unfold bc_okb, E. rewrite forallb2_app by apply length_fit.
+        fold (bc_okb (fit (c_app c) (length S) mid) S). rewrite compat_bc by exact Hcm.
+        apply forallb2_refl. intros x. unfold bc_dim. now rewrite Nat.eqb_refl. }
+      rewrite Hbc. exists (mkNd (S ++ post) (bc E (S ++ post) (dat (e_arr e)))), rest. auto.
+Qed.
+
+(* shape-incompatible insertions raise (ellipsis-first layouts, check not disabled): if some
+   aligned axis of the broadcast part clashes with the common shape, set returns ValueError *)
+Theorem set_incompatible_raises c name a rest :
+  count_ell rest = 0 -> length rest <= length (shp a) ->
+  (exists i, dim_ok (vw (c_app c) (firstn (length (shp a) - length rest) (shp a)) i)
+                    (vw (c_app c) (c_shape c) i) = false) ->
+  set c name a (Some (LEll :: rest)) false true = Err EValue.
+Proof.
+  intros Hc Hr [i Hi]. unfold set.
+  rewrite (count_ell_first rest Hc). cbn [Nat.eqb negb].
+  destruct (Nat.ltb_spec (length (shp a) + 1) (length (LEll :: rest))) as [H|_]; [simpl in H; lia|].
+  cbn [andb]. unfold check_shape.
+  destruct (check_common c (shp a) (LEll :: rest)) eqn:Hcc.
+  - exfalso. unfold check_common, slice in Hcc. simpl in Hcc.
+    replace (length (shp a) + 1 - S (length rest) - 0) with (length (shp a) - length rest) in Hcc by lia.
+    pose proof (check_dims _ _ _ Hcc i) as Hd. congruence.
+  - rewrite andb_false_r. reflexivity.
+Qed.
+
+(* non-vacuity: a history inside the precondition, executed *)
+Definition demo_history : list op :=
+  [OMain (OSet 0 (mkNd [2; 1; 3] [1; 2; 3; 4; 5; 6]%Z) (Some [LEll; LName 0; LFix 3]) false true);
+   OMain (OSet 1 (mkNd [3; 3] [0; 0; 1; 0; 0; 1; 0; 0; 1]%Z) (Some [LEll; LName 0; LFix 3]) true true);
+   OLink true;
+   OMain (OResize 0 3 0%Z);
+   OMain (OUpdate 0 (mkNd [3; 3] [1; 1; 1; 2; 2; 2; 3; 3; 3]%Z) false);
+   OMain (OBroadcast [2; 4]); OMain (OExpand 1); OCopy; OMain (OReduce 1); OMain (OPop 1)].
+
+Ltac solve_pos := let x := fresh in let H := fresh in
+  intros x H; simpl in H; repeat (destruct H as [<-|H]; [lia|]); destruct H.
+
+Lemma demo_ok : ok_run (start true) demo_history /\ all_ok (start true) demo_history = true /\
+                gets_ok (main (run (start true) demo_history)) = true.
+Proof.
+  split; [|split; vm_compute; reflexivity].
+  unfold demo_history. cbn [ok_run op_ok bop_ok bop_first].
+  repeat match goal with
+  | |- _ /\ _ => split
+  | |- True => exact I
+  | |- true = true => reflexivity
+  | |- forall l, Some _ = Some l -> lay_first l =>
+      let l := fresh in let E := fresh in intros l E; inversion E; subst; eexists; split; reflexivity
+  | |- pos_shape _ => solve_pos
+  | |- forall c1, update _ _ _ _ = Ok (c1, true) -> _ =>
+      let c1 := fresh in let E := fresh in intros c1 E; vm_compute in E; discriminate
+  end.
+Qed.
